@@ -85,7 +85,7 @@ int main() {
 
 def build(pool=None, tag='core', shards=16, force=False):
     pool = pool if pool is not None else nopgen.core_pool()
-    srcs = [os.path.join(VERIF, 'harness', 'glue.h'), os.path.join(VERIF, 'harness', 'prim.cpp'), os.path.join(VERIF, 'harness', 'objs.cpp'), os.path.join(VERIF, 'harness', 'thr.cpp'), os.path.join(VERIF, 'harness', 'cx.cpp'), os.path.join(VERIF, 'tools', 'nopgen.py'), os.path.join(VERIF, 'tools', 'rpcgen.py'),
+    srcs = [os.path.join(VERIF, 'harness', 'glue.h'), os.path.join(VERIF, 'harness', 'prim.cpp'), os.path.join(VERIF, 'harness', 'objs.cpp'), os.path.join(VERIF, 'harness', 'thr.cpp'), os.path.join(VERIF, 'harness', 'cx.cpp'), os.path.join(VERIF, 'harness', 'ubuf.cpp'), os.path.join(VERIF, 'tools', 'nopgen.py'), os.path.join(VERIF, 'tools', 'rpcgen.py'),
             os.path.abspath(__file__), os.path.join(VERIF, 'tools', 'common.py')]
     if COVERAGE:
         tag = tag + '-cov'
@@ -160,6 +160,11 @@ def build(pool=None, tag='core', shards=16, force=False):
         r = run([CXX] + CXXFLAGS + ['-I' + out, prim_src, '-o', os.path.join(out, 'prim')], timeout=1200)
         return prim_src, r
 
+    def cc_ubuf(_):
+        src = os.path.join(VERIF, 'harness', 'ubuf.cpp')
+        r = run([CXX] + CXXFLAGS + ([] if COVERAGE else ['-fno-sanitize=bounds']) + ['-I' + out, src, '-o', os.path.join(out, 'ubuf')], timeout=1200)
+        return src, r
+
     def cc_cx(_):
         # compile-time serialization: a build failure is what the C17 check reports (with the values of cx.cpp), not a
         # failure of the whole harness
@@ -204,6 +209,7 @@ def build(pool=None, tag='core', shards=16, force=False):
     with cf.ThreadPoolExecutor(NCPU) as ex:
         fut = ex.submit(cc_prim, None)
         fut6 = ex.submit(cc_cx, None)
+        fut7 = ex.submit(cc_ubuf, None)
         fut2 = ex.submit(cc_objs, None)
         fut3 = ex.submit(cc_rpc, 'rpc')
         fut5 = ex.submit(cc_thr, None)
@@ -211,6 +217,7 @@ def build(pool=None, tag='core', shards=16, force=False):
         res = list(ex.map(cc, files))
         res.append(fut.result())
         res.append(fut6.result())
+        res.append(fut7.result())
         res.append(fut2.result())
         res.append(fut3.result())
         res.append(fut4.result())
